@@ -176,6 +176,16 @@ func runC07(r *Run) {
 					fnd = true
 				}
 			}
+			// ... and only by a request that is going to be accepted: the key-in-use rejection comes first (a
+			// previous-key record left behind by a rejected request would make the next real replacement skip
+			// both the recording and the replacement hook)
+			accepted := false
+			for _, f := range sv.FactsAt(c, false) {
+				if o := sv.outcome(f); o != nil && o.Callee.Name() == "GetOperatorAddressForChainIDAndConsAddr" && !o.Success && o.Result == 0 {
+					accepted = true
+				}
+			}
+			r.check(accepted, "C07.R3", "prev-key|after-in-use-check", sv.pos(c), "the previous key is recorded only once the new key was found unused (checks before effects)", "setOperatorPrevConsKeyForChainID runs before the key-in-use rejection: a rejected request leaves a previous-key record behind, and the next real replacement is neither recorded nor announced to the hooks")
 			r.check(once && fnd, "C07.R3", "prev-key|once", sv.pos(c), "the previous key is recorded only on replacement and only when none is recorded", "the previous key can be overwritten within the epoch (the first replaced key, the one in the validator set, is lost)")
 		}
 		// hooks: AfterOperatorKeyReplaced only when !alreadyRecorded
